@@ -170,6 +170,7 @@ func (c Circ) OpCounts() [5]int {
 type CircOpts struct {
 	MinArgs, MaxArgs int // number of input arguments
 	MaxWidth         int // width of an input argument (1..MaxWidth)
+	MinWidth1        int // lower bound for the width of the second argument (0 = 1)
 	AllowZeroWidth   bool
 	MaxGates         int
 	MaxOuts          int // number of declared outputs
@@ -199,6 +200,9 @@ func DrawCirc(t *rapid.T, o CircOpts) Circ {
 		lo := 1
 		if o.AllowZeroWidth && i >= 2 {
 			lo = 0
+		}
+		if i == 1 && o.MinWidth1 > lo {
+			lo = o.MinWidth1
 		}
 		c.In = append(c.In, rapid.IntRange(lo, o.MaxWidth).Draw(t, "inw"))
 	}
